@@ -195,8 +195,14 @@ func (c *xtsDecrypter) CryptBlocks(plaintext, ciphertext []byte) {
 	if concCipher, ok := c.b.(concurrentBlocks); ok {
 		batchSize := concCipher.Concurrency() * blockSize
 		var tweaks []byte = make([]byte, batchSize)
+		// with a partial final block, the last full block needs the stolen
+		// bytes and must not be consumed by a batch
+		reserved := 0
+		if remain := len(ciphertext) % blockSize; remain != 0 {
+			reserved = blockSize + remain
+		}
 
-		for len(ciphertext) >= batchSize {
+		for len(ciphertext)-reserved >= batchSize {
 			doubleTweaks(&c.tweak, tweaks, c.isGB)
 			subtle.XORBytes(plaintext, ciphertext, tweaks)
 			concCipher.DecryptBlocks(plaintext, plaintext)
